@@ -291,8 +291,11 @@ def ord_hydrogens(repo, tier="quick"):
     why = {("reset", "fill"): "fragment-level counts were computed without the inter-fragment bonds and must not survive into the refill",
            ("fill", "add"): "explicit hydrogens are created from the refilled counts",
            ("aromatic", "fill"): "the aromatic correction changes the bond orders the refill counts"}
+    why[("aromatic", "reset")] = ("pysmiles' aromatic correction reads hcount to decide which aromatic atoms still take part in the Kekule matching "
+                                  "(pyrrole-type [nH] must be seen as saturated): the counts have to be reset after it, not before")
     if resets:
         obs += chain("ORD.hydrogens", fi, ph, ["reset", "fill", "add"], None, why)
+        obs += chain("ORD.hydrogens", fi, ph, ["aromatic", "reset"], None, why)
     obs += chain("ORD.hydrogens", fi, ph, ["aromatic", "fill"], None, why)
     for lab in ("fill", "add") + (("reset",) if resets else ()):
         ok = on_every_path(fi, ph.nodes(lab))
